@@ -34,3 +34,15 @@ Proof.
   eexists _, _, _. split; [vm_compute; reflexivity|].
   exists (nth 1 pin_pop (hd (Build_hagent 0 0 []) pin_pop)), 5. cbn. intuition.
 Qed.
+
+(* ... and then training the child changes the parent: one write to an object the child owns *)
+Lemma pinned_training_changes_parent :
+  exists e np h', select_h_gen (hclone_pinned 1) [0; 1] pin_cfg pin_pop [[0]] pin_heap = Some (e, np, h') /\
+    exists ws a, (forall w, In w ws -> In (fst w) (concat (map owned (e :: np)))) /\ In a pin_pop /\
+                 abs (writes h' ws) a <> abs pin_heap a.
+Proof.
+  eexists _, _, _. split; [vm_compute; reflexivity|].
+  exists [(5, Some (VCell 99))], (nth 1 pin_pop (hd (Build_hagent 0 0 []) pin_pop)).
+  split; [intros w [<-|[]]; cbn; intuition|]. split; [cbn; intuition|].
+  intros H. apply (f_equal (@a_body _)) in H. vm_compute in H. discriminate H.
+Qed.
